@@ -733,9 +733,10 @@ def apply_edit(c, desc, cpar, edit):
     elif kind == 'sweeper':
         cb['sweeper'] = edit[1]
         cb['family'] = 'sdc'
-        desc['sweeper_class'] = build_description(cb)['sweeper_class']
+        fresh_b = build_description(cb)
+        desc['sweeper_class'] = fresh_b['sweeper_class']
         # what the user has to add for the new sweeper; everything else stays as it is in the shared dict
-        desc['sweeper_params'].update({'num_nodes': cb['M'], 'quad_type': cb['quad'], 'QI': cb['QI'], 'initial_guess': cb['guess']})
+        desc['sweeper_params'].update(fresh_b['sweeper_params'])
     elif kind == 'dt':
         desc['level_params']['dt'] = edit[1]
         cb['dt'] = edit[1]
@@ -780,7 +781,63 @@ def scenario_shared(sc):
     return out
 
 
-SCENARIOS = {'shared': scenario_shared, 'case': scenario_case, 'alone': scenario_alone, 'interleave': scenario_interleave, 'pickle': scenario_pickle}
+def _mat_diff(A, B):
+    """Bitwise comparison of two dense matrices: None if identical, else max abs difference + first differing entry."""
+    import numpy as np
+    if A.shape == B.shape and A.tobytes() == B.tobytes():
+        return None
+    if A.shape != B.shape:
+        return {'shape': [list(A.shape), list(B.shape)]}
+    idx = np.argwhere(A != B)
+    i, j = (int(x) for x in idx[0])
+    return {'max_abs_diff': float(np.abs(A - B).max()), 'n_entries_differ': int(len(idx)), 'entry': [i, j],
+            'first': float(A[i, j]).hex(), 'other': float(B[i, j]).hex()}
+
+
+def scenario_transfer(sc):
+    """Fresh-controller reruns of 2-level configurations with mesh_to_mesh of a given order: `nfresh` controllers
+    built from brand-new descriptions; their space-transfer matrices and their runs must be bit-identical.
+    Plus the helper itself: repeated interpolation_matrix_1d / restriction_matrix_1d calls."""
+    import numpy as np
+    from pySDC.helpers.transfer_helper import interpolation_matrix_1d, restriction_matrix_1d
+    out = {'cfgs': []}
+    n = sc.get('nfresh', 4)
+    for c in sc['cfgs']:
+        ent = {'cfg': c, 'runs': [], 'matrix_diffs': []}
+        mats0 = None
+        for q in range(n):
+            A, _, _ = make_controller(c)
+            st = A.MS[0].base_transfer.space_transfer
+            mats = {'Pspace': np.asarray(st.Pspace.toarray(), dtype=float), 'Rspace': np.asarray(st.Rspace.toarray(), dtype=float)}
+            if mats0 is None:
+                mats0 = mats
+            else:
+                for name in ('Pspace', 'Rspace'):
+                    d = _mat_diff(mats0[name], mats[name])
+                    if d is not None:
+                        ent['matrix_diffs'].append(dict(d, matrix=name, controllers=[0, q]))
+            ent['runs'].append(strip(do_run(A, initial_value(A, sc['scale']), unhex(sc['t0']), unhex(sc['t0']) + sc['nsteps'] * c['dt'])))
+        out['cfgs'].append(ent)
+    out['helper'] = []
+    for h in sc['helper']:
+        nf, k, periodic, nested = h['nfine'], h['k'], h['periodic'], h['equidist_nested']
+        if periodic:
+            fine, coarse = np.linspace(0, 1, nf, endpoint=False), np.linspace(0, 1, nf // 2, endpoint=False)
+        else:
+            fine, coarse = np.linspace(0, 1, nf + 2)[1:-1], np.linspace(0, 1, (nf + 1) // 2 + 1)[1:-1]
+        ent = {'call': h, 'diffs': []}
+        for fname, fn in (('interpolation_matrix_1d', interpolation_matrix_1d), ('restriction_matrix_1d', restriction_matrix_1d)):
+            Ms = [np.asarray(fn(fine, coarse, k=k, periodic=periodic, **({'equidist_nested': nested} if fname.startswith('interp') else {})).toarray(), dtype=float)
+                  for _ in range(n)]
+            for q in range(1, n):
+                d = _mat_diff(Ms[0], Ms[q])
+                if d is not None:
+                    ent['diffs'].append(dict(d, function=fname, calls=[0, q]))
+        out['helper'].append(ent)
+    return out
+
+
+SCENARIOS = {'transfer': scenario_transfer, 'shared': scenario_shared, 'case': scenario_case, 'alone': scenario_alone, 'interleave': scenario_interleave, 'pickle': scenario_pickle}
 
 
 def main():
